@@ -850,6 +850,22 @@ func c09Check(w *W, idx int, desc string, nest byte, elems []c09Elem) {
 	} else {
 		w.Count("outside-oracle-domain")
 	}
+	// the same literal deep inside a long input: a comment pushes it so that one of its bytes meets the 4096- or 8192-byte
+	// mark of the input (read-buffer boundaries); what it denotes and how it prints must not depend on where it stands
+	if idx%5 == 0 {
+		item := sql[len("SELECT "):]
+		mark := 4096 << uint((idx/5)%2)
+		k := (idx / 10) % (len(item) + 3)
+		if pad := mark - k - len("SELECT /**/ "); pad > 0 {
+			long := append([]byte("SELECT /*"+strings.Repeat("p", pad)+"*/ "), item...)
+			w.Count("long-input-variants")
+			if got2 := c09Impl(long); got2 != got {
+				w.Count("violation")
+				w.Report(Finding{Kind: "literal", Key: "literal@position-dependent@" + class, Input: fmt.Sprintf("SELECT /* %d × p */ %s", pad, item), InputHex: hexs(long),
+					Detail: fmt.Sprintf("alone the literal prints %q; with its byte %d at offset %d of a longer input it prints %q", got, k, mark, got2)})
+			}
+		}
+	}
 	if !modelOK {
 		w.Count("no-number-token(model skipped)")
 		return
